@@ -334,6 +334,11 @@ class SccContext:
 
     elif control_code in (SccControlCode.RU2, SccControlCode.RU3, SccControlCode.RU4):
       # Start a new Roll-Up caption
+
+      if self.current_style in (SccCaptionStyle.PopOn, SccCaptionStyle.PaintOn):
+        # Switching from Pop-On or Paint-On style to Roll-Up style erases the non-displayed memory
+        self.new_buffered_caption()
+
       self.current_style = SccCaptionStyle.RollUp
 
       if control_code is SccControlCode.RU2:
